@@ -491,15 +491,12 @@ class Extractor:
             nm = it.elt.id
             tup = ast.Tuple(elts=[ast.Name(id=x.id, ctx=ast.Load()) for x in target.elts], ctx=ast.Load())
 
-            class _R(ast.NodeTransformer):
-                def visit_Name(self, node):
-                    return copy.deepcopy(tup) if node.id == nm and isinstance(node.ctx, ast.Load) else node
             for g in it.generators:
                 if isinstance(g.target, ast.Name) and g.target.id == nm:
                     g.target = ast.Tuple(elts=[ast.Name(id=x.id, ctx=ast.Store()) for x in target.elts], ctx=ast.Store())
                 else:
-                    g.iter = _R().visit(g.iter)
-                g.ifs = [_tuple_index_simplify(_R().visit(c)) for c in g.ifs]
+                    g.iter = subst(g.iter, {nm: tup})
+                g.ifs = [_tuple_index_simplify(subst(c, {nm: tup})) for c in g.ifs]      # scope aware: inner comprehensions may re-bind the name
             it.elt = copy.deepcopy(tup)
         if isinstance(it, (ast.ListComp, ast.GeneratorExp, ast.SetComp)):
             out: List[Ctx] = []
@@ -830,6 +827,8 @@ def extract(prog: Program, func: FuncInfo, solver_names=("self.solver", "self"),
 
 # ------------------------------------------------------------------------------------- normal forms
 class Renamer(ast.NodeTransformer):
+    """renames free names; names bound by a comprehension inside the expression shadow the mapping there"""
+
     def __init__(self, mapping: Dict[str, str]):
         self.m = mapping
 
@@ -837,6 +836,31 @@ class Renamer(ast.NodeTransformer):
         if node.id in self.m:
             return ast.copy_location(ast.Name(id=self.m[node.id], ctx=node.ctx), node)
         return node
+
+    def _comp(self, node):
+        bound = set()
+        for g in node.generators:
+            bound |= {n.id for n in ast.walk(g.target) if isinstance(n, ast.Name)}
+        if not (bound & set(self.m)):
+            return self.generic_visit(node)
+        inner = Renamer({k: v for k, v in self.m.items() if k not in bound})
+        seen: Set[str] = set()
+        for i, g in enumerate(node.generators):
+            # an iterable is evaluated before its own target (and later targets) are bound
+            sub = Renamer({k: v for k, v in self.m.items() if k not in seen})
+            g.iter = sub.visit(g.iter)
+            seen |= {n.id for n in ast.walk(g.target) if isinstance(n, ast.Name)}
+            sub2 = Renamer({k: v for k, v in self.m.items() if k not in seen})
+            g.ifs = [sub2.visit(c) for c in g.ifs]
+        for fld in ("elt", "key", "value"):
+            if hasattr(node, fld):
+                setattr(node, fld, inner.visit(getattr(node, fld)))
+        return node
+
+    visit_GeneratorExp = _comp
+    visit_ListComp = _comp
+    visit_SetComp = _comp
+    visit_DictComp = _comp
 
 
 EDGE_ITERS = re.compile(r"^(?P<g>[\w.]+)\.edges(\(\)|\(data=True\))?$")
